@@ -88,10 +88,26 @@ impl MapKeys {
 #[derive(Debug, Clone, PartialEq, Eq)]
 pub enum Value {
     Keys(u8, usize),
+    /// a byte array seen as a value (only as the receiver of `keep`, which is not modelled)
+    Bytes,
 }
-pub struct Context;
+impl From<Array<u8>> for Value {
+    fn from(_a: Array<u8>) -> Value {
+        Value::Bytes
+    }
+}
+impl Value {
+    /// not modelled: only reached for map arrays, which the harnesses of the callers exclude
+    pub fn keep(self, _kept: Value, _env: &Uiua) -> UiuaResult<Value> {
+        panic!("Value::keep is outside the modelled cases")
+    }
+}
+#[derive(Clone, Copy)]
+pub struct Context {
+    pub fill: Option<f64>,
+}
 impl Context {
-    pub const NONE: Context = Context;
+    pub const NONE: Context = Context { fill: None };
 }
 /// stand-ins for the three foreign field types of ArrayMetaInner
 pub type EcoString = u8;
@@ -124,8 +140,8 @@ impl<T> Array<T> {
         Self { shape, data, meta: ArrayMeta::default() }
     }
     /// model of Array::map (src/algorithm/map.rs:50): installs the key set carried by `keys`
-    pub fn map(&mut self, keys: Value, _ctx: Context) -> Result<(), ()> {
-        let Value::Keys(token, reversed) = keys;
+    pub fn map(&mut self, keys: Value, _ctx: Context) -> UiuaResult {
+        let Value::Keys(token, reversed) = keys else { panic!("map: keys are not a key set (outside the modelled cases)") };
         self.meta.map_keys = Some(MapKeys { reversed, token });
         Ok(())
     }
@@ -232,13 +248,10 @@ pub struct Uiua {
     /// the numeric scalar fill in scope, if any
     pub fill: Option<f64>,
 }
-#[derive(Clone, Copy)]
-pub struct Ctx {
-    fill: Option<f64>,
-}
+pub type Ctx = Context;
 impl Uiua {
     pub fn ctx(&self) -> Ctx {
-        Ctx { fill: self.fill }
+        Context { fill: self.fill }
     }
     pub fn error(&self, _m: impl Sized) -> UiuaError {
         UiuaError
@@ -259,5 +272,98 @@ impl Ctx {
             Some(x) => Ok(FillValue { value: T::from_f64(x) }),
             None => Err(""),
         }
+    }
+}
+
+// ---- containers used by classify / deduplicate / unique / count_unique / occurrences ----
+/// ASSUMPTION: a std HashMap / HashSet keyed by `ArrayCmpSlice` behaves as a map / set under the key's `==`
+/// (true iff its Hash agrees with its Eq: obligations C15.e1.*.eq_implies_hash_eq).  Modelled as association lists.
+pub struct HashMap<K, V>(pub Vec<(K, V)>);
+impl<K: PartialEq, V> HashMap<K, V> {
+    pub fn new() -> Self {
+        // capacity reserved up front: no reallocation inside the verified loops
+        HashMap(Vec::with_capacity(4))
+    }
+    pub fn len(&self) -> usize {
+        self.0.len()
+    }
+    pub fn entry(&mut self, k: K) -> MapEntry<'_, K, V> {
+        MapEntry(self, k)
+    }
+}
+pub struct MapEntry<'a, K, V>(&'a mut HashMap<K, V>, K);
+impl<'a, K: PartialEq, V> MapEntry<'a, K, V> {
+    pub fn or_insert(self, v: V) -> &'a mut V {
+        let mut i = 0;
+        while i < self.0.0.len() {
+            if self.0.0[i].0 == self.1 {
+                return &mut self.0.0[i].1;
+            }
+            i += 1;
+        }
+        self.0.0.push((self.1, v));
+        let n = self.0.0.len();
+        &mut self.0.0[n - 1].1
+    }
+}
+pub struct HashSet<K>(pub Vec<K>);
+impl<K: PartialEq> HashSet<K> {
+    pub fn new() -> Self {
+        HashSet(Vec::with_capacity(4))
+    }
+    pub fn insert(&mut self, k: K) -> bool {
+        let mut i = 0;
+        while i < self.0.len() {
+            if self.0[i] == k {
+                return false;
+            }
+            i += 1;
+        }
+        self.0.push(k);
+        true
+    }
+}
+#[derive(Debug, Clone, Default)]
+pub struct EcoVec<T>(pub Vec<T>);
+impl<T: Clone> EcoVec<T> {
+    pub fn make_mut(&mut self) -> &mut [T] {
+        &mut self.0
+    }
+}
+impl<T> From<EcoVec<T>> for Data<T> {
+    fn from(v: EcoVec<T>) -> Data<T> {
+        Data(v.0)
+    }
+}
+#[macro_export]
+macro_rules! eco_vec {
+    ($e:expr; $n:expr) => {
+        $crate::shim::EcoVec(vec![$e; $n])
+    };
+}
+impl<T: Clone> Data<T> {
+    pub fn new() -> Self {
+        Data(Vec::with_capacity(8))
+    }
+    pub fn extend_from_slice(&mut self, s: &[T]) {
+        self.0.extend_from_slice(s)
+    }
+    pub fn truncate(&mut self, n: usize) {
+        self.0.truncate(n)
+    }
+}
+impl<T> Array<T> {
+    pub fn element_count(&self) -> usize {
+        self.data.len()
+    }
+}
+impl From<u8> for Array<u8> {
+    fn from(x: u8) -> Self {
+        Array { shape: Shape(Vec::new()), data: Data(vec![x]), meta: ArrayMeta::default() }
+    }
+}
+impl FromIterator<usize> for Shape {
+    fn from_iter<I: IntoIterator<Item = usize>>(it: I) -> Self {
+        Shape(it.into_iter().collect())
     }
 }
